@@ -737,6 +737,15 @@ def rule_lookup_provenance(ctx, rep: Report, rid="Q5"):
                     e = expr_of(e.id) if isinstance(e, ast.Name) and expr_of(e.id) is not None else e
                     kinds.append(_count_kind(prog, ci, ff, e, plist[0], la))
             arity = sorted(kinds) == ["required", "total"]
+        # the same condition written as a membership test: `len(names) not in (required, total)`
+        if isinstance(i, ast.If) and isinstance(i.test, ast.Compare) and len(i.test.ops) == 1 and isinstance(i.test.ops[0], ast.NotIn) \
+                and unparse(i.test.left).replace(" ", "") == f"len({names_p})" and isinstance(i.test.comparators[0], (ast.Tuple, ast.List, ast.Set)) \
+                and any(isinstance(x, ast.Continue) for x in i.body) and plist and len(i.test.comparators[0].elts) == 2:
+            kinds = []
+            for e in i.test.comparators[0].elts:
+                e = expr_of(e.id) if isinstance(e, ast.Name) and expr_of(e.id) is not None else e
+                kinds.append(_count_kind(prog, ci, ff, e, plist[0], la))
+            arity = arity or sorted(kinds) == ["required", "total"]
     rep.add(rid, "candidates kept only if the parameter count equals the given count (required or total)", arity,
             "arity filter `len(names) != required and len(names) != total -> skip` not found (total = number of <param>, required = total minus "
             "those with a <defval>)", f"{ci.mod.rel}:{ff.lineno}")
